@@ -75,7 +75,7 @@ Init ==
            /\ m = InitMachine(world, Env, tx)
            /\ n = 0
 
-MaxSteps == 4000
+MaxSteps == 600
 StepM == /\ m.status = "run"
          /\ n < MaxSteps
          /\ m' = Step(m)
@@ -95,7 +95,9 @@ InvContext == ContextCorrect(m)
 \* the message value has already moved from SENDER to ROOT in the initial machine
 InvBalance == BalanceConserved(m, TotalBalance(w0))
 InvFailure == FailureRestores(m, w0)
-\* every execution of the family ends (the loop is guarded by storage it changes, recursion by the depth limit)
+\* every execution of the family ends (the loop is guarded by storage it changes, recursion by the depth limit).  Checked in
+\* the configurations with one gadget per account; with two root gadgets `sstore(0,1)` before the loop resets the counter
+\* on every iteration - without gas that program runs forever, and exploration stops at MaxSteps (MC_EvmSmall_r.cfg)
 InvTerminates == n < MaxSteps
 \* a finished machine has no frames left and a result kind
 \* nothing in this family is outside the model
